@@ -354,28 +354,35 @@ def check_entries(P, R, q, spec):
             elif isinstance(a, ast.Dict) and not a.keys:
                 ok = True
             elif isinstance(a, ast.Name):
-                defs = [s for s in au.walk_no_defs(e.node)
+                defs = [s.value for s in au.walk_no_defs(e.node)
                         if isinstance(s, ast.Assign) and any(
                             au.is_name(t, a.id) for t in s.targets)]
-                if a.id in e.params:
-                    # forwarded parameter: fresh when the default is None
-                    # and replaced by dict() inside
-                    ok = all(
-                        isinstance(s.value, ast.Call) and au.call_name(
-                            s.value) == 'dict' for s in defs)
-                elif defs:
+                defs += [s.value for s in au.walk_no_defs(e.node)
+                         if isinstance(s, ast.AnnAssign) and au.is_name(
+                             s.target, a.id) and s.value is not None]
+
+                def fresh(v, seeded):
                     # a dictionary object created in this call (possibly
                     # seeded with constants, e.g. the terminal)
-                    ok = all(
-                        (isinstance(s.value, ast.Call) and au.call_name(
-                            s.value) == 'dict' and not s.value.args)
-                        or (isinstance(s.value, ast.Dict) and all(
-                            isinstance(k, ast.Constant) or au.const_int(
-                                k) is not None
-                            for k in s.value.keys if k is not None)
-                            and all(au.const_int(v) is not None
-                                    for v in s.value.values))
-                        for s in defs)
+                    if isinstance(v, ast.Call) and au.call_name(
+                            v) == 'dict' and not v.args and not v.keywords:
+                        return True
+                    if isinstance(v, ast.Dict):
+                        if not v.keys:
+                            return True
+                        return seeded and all(
+                            k is not None and (
+                                isinstance(k, ast.Constant) or au.const_int(
+                                    k) is not None) for k in v.keys) and \
+                            all(au.const_int(x) is not None
+                                for x in v.values)
+                    return False
+                if a.id in e.params:
+                    # forwarded parameter: fresh when the default is None
+                    # and replaced by an empty dictionary inside
+                    ok = all(fresh(v, False) for v in defs)
+                elif defs:
+                    ok = all(fresh(v, True) for v in defs)
             what = f'{eq} -> {f.name}: memo `{memo}` is created per call'
             if ok:
                 R.holds('R-MEMO', eq, what)
